@@ -136,6 +136,43 @@ func ruleR22(c *Ctx) *RuleResult {
 				}
 				continue
 			}
+			// the last slot removed first, then its value (read before anything was written) stored into slot 0 — only where
+			// the path knows the last index above 0 (Set(0, v) on a list just emptied would append v again); where it knows
+			// the last index is 0 the only element is simply removed
+			lastIdxGuard := 0 // +1: path knows lastIndex > 0, -1: knows lastIndex <= 0
+			for _, a := range g.Guards {
+				s := noEpoch(a)
+				if !strings.Contains(s, "(fa:list p:0)") {
+					continue
+				}
+				if strings.HasPrefix(s, "(< #:0 (- (len ") && strings.HasSuffix(s, " #:1))") || strings.HasPrefix(s, "(< #:1 (len ") {
+					lastIdxGuard = 1
+				}
+				if strings.HasPrefix(s, "(<= (- (len ") && strings.HasSuffix(s, " #:1) #:0)") || strings.HasPrefix(s, "(<= (len ") && strings.HasSuffix(s, " #:1)") {
+					lastIdxGuard = -1
+				}
+			}
+			if strings.Join(cs, ",") == "Remove,Set,bubbleDown" && len(g.Effects) >= 3 && lastIdxGuard == 1 {
+				rm, st := g.Effects[0], g.Effects[1]
+				_, sa, _ := effDo(st)
+				_, ra, _ := effDo(rm)
+				okSet := len(sa) == 3 && len(ra) == 2 && sa[1].String() == "#:0" && sa[2].Op == "ext" && sa[2].Leaf == "0" && sa[2].Args[0].Op == "call" && strings.HasSuffix(sa[2].Args[0].Leaf, ").Get") && len(sa[2].Args[0].Args) == 3 &&
+					noEpoch(sa[2].Args[0].Args[2]) == noEpoch(ra[1]) && ra[1].Op == "-" && ra[1].Args[1].String() == "#:1" && ra[1].Args[0].Op == "len" && strings.Contains(sa[2].Args[0].String(), "@:e0")
+				if !okSet {
+					bad = append(bad, "Pop must move the last element (read before the removal) into slot 0 and remove the last slot: "+trunc(noEpoch(rm), 120)+" ; "+trunc(noEpoch(st), 160))
+				}
+				if !strings.Contains(g.Exit.Args[0].String(), "@:e0") {
+					bad = append(bad, "the popped value is not read before slot 0 is overwritten")
+				}
+				continue
+			}
+			if strings.Join(cs, ",") == "Remove,bubbleDown" && lastIdxGuard == -1 && len(g.Effects) >= 2 {
+				_, ra, _ := effDo(g.Effects[0])
+				if !(len(ra) == 2 && ra[1].Op == "-" && ra[1].Args[1].String() == "#:1" && ra[1].Args[0].Op == "len") || !strings.Contains(g.Exit.Args[0].String(), "@:e0") {
+					bad = append(bad, "Pop of the only element must remove the last slot and return what slot 0 held: "+trunc(noEpoch(g.Effects[0]), 160))
+				}
+				continue
+			}
 			if strings.Join(cs, ",") != "Swap,Remove,bubbleDown" {
 				bad = append(bad, "Pop must swap slot 0 with the last slot, remove the last slot and sift down, found: "+strings.Join(cs, ","))
 				continue
@@ -226,6 +263,43 @@ func ruleR22(c *Ctx) *RuleResult {
 			// slot, start(n) >= n/2 - 1, for every n (decided by evaluating both sides with Go's integer semantics for
 			// n = 0..64: with one size atom, constants below 16 and divisions by 2 only, both sides are linear on each
 			// parity class beyond the constants, so 64 values decide all n)
+			// the size the start is computed from is the size *after* the appends of this path: a load dated before the last
+			// Add of the same path (same impure-call count as that Add's own receiver load) is the old size
+			lastAdd := -1
+			for i, ef := range g.Effects {
+				if nm, _, ok := effDo(ef); ok && nm == "Add" {
+					lastAdd = i
+				}
+			}
+			if lastAdd >= 0 {
+				callsBefore := 0
+				for _, ef := range g.Effects[:lastAdd] {
+					if ef.Op == "do" {
+						callsBefore++
+					}
+				}
+				stale := false
+				stT.any(func(t *Term) bool {
+					if t.Op == "load" && strings.HasPrefix(t.Leaf, "c") {
+						n := 0
+						fmt.Sscanf(t.Leaf, "c%d.", &n)
+						if n <= callsBefore && (hasField(t, "elements") || hasField(t, "size")) {
+							stale = true
+						}
+					}
+					if t.Op == "call" && len(t.Args) >= 1 && t.Args[0].Op == "@" && strings.HasPrefix(t.Args[0].Leaf, "e") {
+						n := 0
+						fmt.Sscanf(t.Args[0].Leaf, "e%d", &n)
+						if n <= lastAdd {
+							stale = true
+						}
+					}
+					return false
+				})
+				if stale {
+					bad = append(bad, "the heapify start is computed from the list's size as it was before this path's Add: the internal nodes of the grown heap above it are never sifted down: "+trunc(st, 160))
+				}
+			}
 			if okExpr, verdict, cex := heapifyStartCovers(stT); okExpr {
 				if !verdict {
 					bad = append(bad, fmt.Sprintf("the heapify loop starts at %s, which is below the parent of the last slot (n/2-1) for n = %d: that node is never sifted down", trunc(st, 120), cex))
@@ -409,6 +483,30 @@ func ruleR23(c *Ctx) *RuleResult {
 			r.add(Obligation{Key: "R23c:" + key, Rule: "R23c", Clause: clC, Pos: p.FuncPos(fn), Status: Undecided, Facts: gc.Undecided})
 			continue
 		}
+		// Contains(xs...) = !slices.ContainsFunc(xs, missing) with missing(x) = "x is not a member" (a lookup of x in a field of
+		// the captured receiver, negated): true exactly when no argument is missing, true for no arguments
+		if len(gc.GCs) == 1 && len(gc.GCs[0].Guards) == 0 && gc.GCs[0].Exit.Op == "return" && len(gc.GCs[0].Exit.Args) == 1 {
+			if x := gc.GCs[0].Exit.Args[0]; x.Op == "!" && len(x.Args) == 1 && x.Args[0].Op == "std" && x.Args[0].Leaf == "slices.ContainsFunc" && len(x.Args[0].Args) == 3 && x.Args[0].Args[1].String() == "p:1" && x.Args[0].Args[2].Op == "closure" {
+				okForm := false
+				for _, an := range fn.AnonFuncs {
+					if p.FuncKey(an) != x.Args[0].Args[2].Leaf {
+						continue
+					}
+					ag := c.GC(an)
+					if ag.Undecided == "" && len(ag.GCs) == 1 && len(ag.GCs[0].Guards) == 0 && len(ag.GCs[0].Effects) == 0 && ag.GCs[0].Exit.Op == "return" && len(ag.GCs[0].Exit.Args) == 1 {
+						if m := ag.GCs[0].Exit.Args[0]; m.Op == "!" && len(m.Args) == 1 && m.Args[0].Op == "ext" && m.Args[0].Leaf == "1" && len(m.Args[0].Args) == 1 {
+							if lk := m.Args[0].Args[0]; (lk.Op == "lookup" || lk.Op == "call") && len(lk.Args) >= 2 && lk.Args[len(lk.Args)-1].String() == "p:0" && lk.any(func(t *Term) bool { return t.Op == "fv" }) {
+								okForm = true
+							}
+						}
+					}
+				}
+				if okForm {
+					r.add(Obligation{Key: "R23c:" + key, Rule: "R23c", Clause: clC, Pos: p.FuncPos(fn), Status: Discharged, Facts: "!slices.ContainsFunc(values, missing) with missing(x) = not found in the receiver's table"})
+					continue
+				}
+			}
+		}
 		// the outer loop: the cut whose φ indexes p:1
 		outer := -1
 		for _, g := range gc.GCs {
@@ -446,6 +544,18 @@ func ruleR23(c *Ctx) *RuleResult {
 				}
 				if a.Op == "==" && strings.Contains(s, "(fa:value ") && strings.Contains(s, item) {
 					found = true
+				}
+				// the container's own IndexOf of the current value: -1 (or negative) ⇔ not a member (IndexOf is judged by R38)
+				if len(a.Args) == 2 {
+					isIdx := func(t *Term) bool {
+						return t.Op == "call" && strings.HasSuffix(t.Leaf, ").IndexOf") && len(t.Args) == 3 && t.Args[1].String() == "p:0" && noEpoch(t.Args[2]) == item
+					}
+					switch {
+					case a.Op == "==" && a.Args[0].String() == "#:-1" && isIdx(a.Args[1]), a.Op == "<" && isIdx(a.Args[0]) && a.Args[1].String() == "#:0":
+						missed = true
+					case a.Op == "!=" && a.Args[0].String() == "#:-1" && isIdx(a.Args[1]), a.Op == "<=" && a.Args[0].String() == "#:0" && isIdx(a.Args[1]):
+						found = true
+					}
 				}
 				// the member's node looked up in the inner tree: nil ⇔ not a member
 				if (a.Op == "==" || a.Op == "!=") && len(a.Args) == 2 {
@@ -723,6 +833,14 @@ func ruleR24(c *Ctx) *RuleResult {
 			n := 0
 			for _, g := range c.GC(fn).GCs {
 				if g.From == 0 || g.Exit.Op != "goto" {
+					// outside the per-argument rounds nothing is written: a shortcut that clears or rebuilds the table for
+					// the whole argument list decides membership for all arguments at once (duplicates among them, members
+					// not named)
+					for _, ef := range g.Effects {
+						if ef.Op == "do" || ef.Op == "mapset" || (ef.Op == "builtin" && (ef.Leaf == "delete" || ef.Leaf == "clear")) || (isStore(ef) && hasField(ef.Args[0], "items")) {
+							bad = append(bad, op.name+" writes the table outside its per-argument loop: "+trunc(noEpoch(ef), 160))
+						}
+					}
 					continue
 				}
 				n++
